@@ -339,9 +339,7 @@ def judge_batch(ctx, cases, r, prop, construct_of=None):
         src = ' '.join(c['body'])
         if c['expect'] == 'accept':
             if errs:
-                if c['class'].endswith('twin') or '/twin' in c['class']:
-                    ctx.error('compiling twin %s (%s) does not compile: %s' % (c['id'], c['class'], errs[0]['message']))
-                else:
+                if True:
                     ctx.violation('must-accept', None, c['class'], 'a declaration that must be accepted is rejected: %s%s  --  %s' % (errs[0]['message'], (' [%s]' % errs[0]['code']) if errs[0]['code'] else '', src[:400]),
                                   key='%s/must-accept/%s' % (prop, c['class']), construct=construct_of(c) if construct_of else None)
                     ctx.violations[-1]['case'] = c
